@@ -62,7 +62,10 @@ theorem JobOK.table_phase {cfg : Cfg} {s : St} {d : Disk} {j : Job} (h : JobOK c
           rintro ⟨_, _, _, hk⟩
           revert hk
           cases j.mkJournal <;> simp [Holds]
-      · exact absurd hk id
+      · exact absurd hk.2.2.2 (by simp)
+      · obtain ⟨_, _, _, _, hk⟩ := hk
+        revert hk
+        cases s.tr <;> simp [Holds]
 
 
 /-- the pcs whose manifest clause is "settled, mirrored" and whose edit is still to come -/
@@ -87,13 +90,20 @@ theorem JobOK.early_next {cfg : Cfg} {s : St} {d : Disk} {j : Job} (h : JobOK cf
     (hout : ∀ o', j.outs = [o'] → OutOK { d with tables := T' } pc' 0 o')
     (hidx : PcIdxOK { j with pc := pc' })
     (hmk : j.mkJournal = none ∨ ((pc' = .mkJournal ∨ pc'.tablesDone = false) ↔ (j.pc = .mkJournal ∨ j.pc.tablesDone = false)))
-    (hed : j.edit.isSome = true) :
+    (hed : j.edit.isSome = true)
+    (hT : ∀ t, (∀ o' ∈ j.outs, t ≠ o'.1) → lookup T' t = lookup d.tables t) :
     JobOK cfg { s with job := some { j with pc := pc' } } { d with tables := T' } { j with pc := pc' } := by
-  obtain ⟨h1, h2, h3, h4, h5, h6, h7, h8, h9, h10⟩ := h
-  refine ⟨h1, ?_, ?_, ?_, h5, ?_, hidx, ?_, ?_, fun hn => by
+  obtain ⟨h1, h2, h3, h4, h5, h6, h7, h8, h9, h10, h11, h12⟩ := h
+  refine ⟨h1, ?_, ?_, ?_, h5, ?_, hidx, ?_, ?_, (fun hn => by
     have hn' : j.edit = none := hn
-    rw [hn'] at hed; cases hed⟩
+    rw [hn'] at hed; cases hed), ?_, (fun hb => by
+    have hb' : pc'.beforeCommit = false := hb
+    rw [early_beforeCommit he'] at hb'; cases hb')⟩
+  rotate_right
+  · exact Holds'.imp (o := j.edit) h11 (fun e he0 => he0.transport rfl rfl (fun _ => rfl)
+      (fun _ => early_beforeCommit he) (fun _ => rfl) (fun _ => hT))
   · exact h2.transport rfl rfl rfl rfl rfl rfl rfl rfl rfl rfl rfl rfl (fun _ => early_beforeCommit he)
+      rfl rfl (fun _ => rfl)
   · unfold JobManifestOK at h3 ⊢
     show match j.edit with
       | some e => JobManifest cfg _ _ e pc'
@@ -166,6 +176,11 @@ theorem inv_job_tCreate {cfg : Cfg} {s : St} {d : Disk} (h : Inv cfg s d) {j : J
     rw [hpc]
     simp [JPc.tablesDone]
   · exact hed
+  · intro t ht
+    have := ht (n, gs) (by rw [ho]; exact List.mem_singleton.2 rfl)
+    first
+      | rw [lookup_set, if_neg this]
+      | rw [lookup_modify, if_neg this]
 
 theorem inv_job_tWrite {cfg : Cfg} {s : St} {d : Disk} (h : Inv cfg s d) {j : Job} (hj : s.job = some j) {i : Nat}
     (hpc : j.pc = .tWrite i) {rot : Bool} {s' : St} {d' : Disk}
@@ -206,6 +221,11 @@ theorem inv_job_tWrite {cfg : Cfg} {s : St} {d : Disk} (h : Inv cfg s d) {j : Jo
     rw [hpc]
     simp [JPc.tablesDone]
   · exact hed
+  · intro t ht
+    have := ht (n, gs) (by rw [ho]; exact List.mem_singleton.2 rfl)
+    first
+      | rw [lookup_set, if_neg this]
+      | rw [lookup_modify, if_neg this]
 
 theorem inv_job_tSync {cfg : Cfg} {s : St} {d : Disk} (h : Inv cfg s d) {j : Job} (hj : s.job = some j) {i : Nat}
     (hpc : j.pc = .tSync i) {rot : Bool} {s' : St} {d' : Disk}
@@ -259,5 +279,8 @@ theorem inv_job_tSync {cfg : Cfg} {s : St} {d : Disk} (h : Inv cfg s d) {j : Job
       right
       simp only [Option.isSome_some, if_true, true_or, hpc, JPc.tablesDone, or_true]
   · exact hed
+  · intro t ht
+    have := ht (n, gs) (by rw [ho]; exact List.mem_singleton.2 rfl)
+    rw [lookup_modify, if_neg this]
 
 end GoLevel.Dur
